@@ -205,7 +205,7 @@ def c36(c):
     s = c.tlc('Connect', 'ConnTimersSim', 'timers_sim_rearm.cfg' if rearm else 'timers_sim.cfg', simulate=nb, depth=20, timeout=1500)
     if not s['ok']:
         raise vf.Inconclusive('simulation failed: %s\n%s' % (s['error'], s['out'][-3000:]))
-    keep = ('step', 'out', 'cb', 'status', 'closing', 'tmr')
+    keep = ('step', 'out', 'cb', 'status', 'closing', 'tmr', 'now')
     behs = []
     for b in c.behaviours(s):
         bb = [{k: x[k] for k in keep} for x in b]
